@@ -4019,7 +4019,63 @@ pub (crate) fn bid128_ext_fma(
     res
 }
 
+/// `bid128_fma` when tininess is detected after rounding.
+///
+/// Tininess detected after rounding differs from tininess detected before rounding only when an inexact result is
+/// delivered as the least normal number +/-10^33 * 10^emin: the exact value may lie below it while the result rounded to
+/// 34 digits with unbounded exponent (quantum 10^(emin-1) there) is 10^34 * 10^(emin-1), which is not tiny.  The tests
+/// made along the way in `bid128_ext_fma` cannot always tell (they see the value only at the quantum 10^emin, and some
+/// apply the round-to-nearest rule in every mode), so the underflow flag of that one result is decided here:
+/// x * (10 * y) + 10 * z, rounded in the same mode, is that rounding with the quantum 10^(emin-1) moved to 10^emin; it has
+/// the exponent emin (34 digits, below 10^34 * 10^emin) exactly when the result is tiny.
+#[cfg(feature = "decimal_tiny_detection_after_rounding")]
+fn bid128_fma_tiny_after(x: &BID_UINT128, y: &BID_UINT128, z: &BID_UINT128, rnd_mode: RoundingMode, pfpsf: &mut _IDEC_flags) -> BID_UINT128 {
+    const EXP_FIELD_MAX: BID_UINT64 = 12287; // emax + 6176
+    let (mut i1, mut i2, mut i3, mut i4) = (false, false, false, false);
+    // the flags raised by this operation alone
+    let mut flags: _IDEC_flags = 0;
+    let res = bid128_ext_fma(&mut i1, &mut i2, &mut i3, &mut i4, x, y, z, rnd_mode, &mut flags);
+    if (flags & StatusFlags::BID_INEXACT_EXCEPTION) != 0
+    && (res.w[BID_HIGH_128W] & 0x7fffffffffffffffu64) == 0x0000314dc6448d93u64
+    && res.w[BID_LOW_128W] == 0x38c15b0a00000000u64 {
+        // x, y (and z unless it is a zero) are finite, canonical and non-zero here: the exponent is in bits 62..49
+        let mut x10 = *x;
+        let mut y10 = *y;
+        let mut z10 = *z;
+        let mut scaled = true;
+        if ((y10.w[BID_HIGH_128W] >> 49) & 0x3fff) < EXP_FIELD_MAX {
+            y10.w[BID_HIGH_128W] += 1u64 << 49;
+        } else if ((x10.w[BID_HIGH_128W] >> 49) & 0x3fff) < EXP_FIELD_MAX {
+            x10.w[BID_HIGH_128W] += 1u64 << 49;
+        } else {
+            scaled = false;
+        }
+        // a z that is not scaled is a zero: a non-canonical encoding (z is not infinite or NaN here), or its exponent is
+        // emax (a non-zero z of that size cannot leave a sum near 10^emin)
+        if (z10.w[BID_HIGH_128W] & 0x6000000000000000u64) != 0x6000000000000000u64
+        && ((z10.w[BID_HIGH_128W] >> 49) & 0x3fff) < EXP_FIELD_MAX {
+            z10.w[BID_HIGH_128W] += 1u64 << 49;
+        }
+        if scaled {
+            let mut flags10: _IDEC_flags = 0;
+            (i1, i2, i3, i4) = (false, false, false, false);
+            let res10 = bid128_ext_fma(&mut i1, &mut i2, &mut i3, &mut i4, &x10, &y10, &z10, rnd_mode, &mut flags10);
+            if ((res10.w[BID_HIGH_128W] >> 49) & 0x3fff) == 0 {
+                flags |= StatusFlags::BID_UNDERFLOW_EXCEPTION;
+            } else {
+                flags &= !StatusFlags::BID_UNDERFLOW_EXCEPTION;
+            }
+        }
+    }
+    *pfpsf |= flags;
+    res
+}
+
+#[cfg_attr(feature = "decimal_tiny_detection_after_rounding", allow(unreachable_code, unused_mut, unused_variables))]
 pub (crate) fn bid128_fma(x: &BID_UINT128, y: &BID_UINT128, z: &BID_UINT128, rnd_mode: RoundingMode, pfpsf: &mut _IDEC_flags) -> BID_UINT128 {
+    #[cfg(feature = "decimal_tiny_detection_after_rounding")]
+    return bid128_fma_tiny_after(x, y, z, rnd_mode, pfpsf);
+
     let mut is_midpoint_lt_even: bool = false;
     let mut is_midpoint_gt_even: bool = false;
     let mut is_inexact_lt_midpoint: bool = false;
